@@ -224,6 +224,54 @@ def _space_configs(api, grid, ctx, thorough, only=None, bary=None):
 # correspondence
 
 
+def _stub_self_test(ctx, res):
+    """vlib/exafmm_stub versus a plain Python double loop over (target, source) pairs."""
+    import cmath
+    import math
+    import numpy as np
+    import exafmm.laplace as L
+    import exafmm.helmholtz as H
+    import exafmm.modified_helmholtz as M
+    rng = ctx.rng
+    ns, extra = 9, 4
+    S = np.array([[rng.uniform(-1, 1) for _ in range(3)] for _ in range(ns)])
+    T = np.vstack([S[:3], np.array([[rng.uniform(-2, 2) for _ in range(3)] for _ in range(extra)])])
+    q = np.array([complex(rng.uniform(-1, 1), rng.uniform(-1, 1)) for _ in range(ns)])
+    k, w = complex(rng.uniform(0.5, 2), rng.uniform(0, 0.6)), rng.uniform(0.3, 1.5)
+    worst = 0.0
+    for name, mod, fmm in (("laplace", L, L.LaplaceFmm(5, 400, filename="x")),
+                           ("helmholtz", H, H.HelmholtzFmm(5, 400, k, filename="x")),
+                           ("modified_helmholtz", M, M.ModifiedHelmholtzFmm(5, 400, w, filename="x"))):
+        tree = mod.setup(mod.init_sources(S, np.zeros(ns)), mod.init_targets(T), fmm)
+        mod.update_charges(tree, q)
+        mod.clear_values(tree)
+        got = np.asarray(mod.evaluate(tree, fmm))
+        ref = np.zeros((len(T), 4), dtype=complex)
+        for i, x in enumerate(T):
+            for j, y in enumerate(S):
+                d = x - y
+                r = math.sqrt(float(d @ d))
+                if r == 0:
+                    continue
+                if name == "laplace":
+                    g = 1 / (4 * math.pi * r)
+                    dg = -g / r
+                elif name == "helmholtz":
+                    g = cmath.exp(1j * k * r) / (4 * math.pi * r)
+                    dg = g * (1j * k - 1 / r)
+                else:
+                    g = math.exp(-w * r) / (4 * math.pi * r)
+                    dg = g * (-w - 1 / r)
+                ref[i, 0] += g * q[j]
+                ref[i, 1:] += dg * d / r * q[j]
+        err = float(np.max(np.abs(got - ref)) / np.max(np.abs(ref))) if got.shape == ref.shape else 1.0
+        worst = max(worst, err)
+        res.case(("stub", name), nontrivial=True)
+        if err > 1e-13:
+            res.disagree("exafmm stub differs from the double-loop reference", kernel=name, rel_error=err)
+    return worst
+
+
 def correspondence(ctx):
     import numpy as np
     res = Result()
@@ -235,7 +283,7 @@ def correspondence(ctx):
     build_driver()
     by_pos = 1 if MODEL_VARIANT == "patched" else 0
     reqs, handlers = [], []
-    worst = {"pmap": 0.0, "smap": 0.0, "mv_fmm": 0.0, "mv_dense": 0.0}
+    worst = {"pmap": 0.0, "smap": 0.0, "mv_fmm": 0.0, "mv_dense": 0.0, "stub": 0.0}
     counts = {"pmap_impl_raises": 0, "pmap_cases": 0, "tidx_cases": 0, "mv_cases": 0}
 
     def add(line, h):
@@ -249,6 +297,8 @@ def correspondence(ctx):
         keep = {"octa", names[ctx.seed % len(names)]}
         grids = {k: v for k, v in grids.items() if k in keep}
     orders = [1, 2, 3, 4, 5] if ctx.thorough else [2, 1 + ctx.seed % 4]
+    # ---- (0) the exafmm stub against a plain double loop (all three kernels, coincident points skipped) -------
+    worst["stub"] = _stub_self_test(ctx, res)
     # ---- (a) point maps ------------------------------------------------------------------
     for gname, VED in sorted(grids.items()):
         grid = _mkgrid(api, VED, rng=ctx.rng if ctx.rng.random() < 0.5 else None)
